@@ -39,5 +39,14 @@ Definition permitting_ok : bool :=
   forallb (fun c => match handler_permits false c with Some a => existsb (fun b => b) a | None => false end) permitting_cmds
   && match lookup "handleNoop" flush_calls with Some [Some true] => true | _ => false end
   && match idle_begin_flush with Some true => true | _ => false end.
+(* the flushes that make a command "permit" (and the STORE / trailing ones that must not) are performed whenever control
+   reaches them: no if / case / loop body around them inside their function (a MOVE that moves nothing still flushes) *)
+Definition unconditional_handlers : list string :=
+  ["handleCheck"; "handleClose"; "handleExpunge"; "handleUIDExpunge"; "handleMove"; "handleNoop"; "handleStore";
+   "handleSelectedCommand"].
+Definition guards_ok : bool :=
+  forallb (fun h => match lookup h flush_guard_depths with
+                    | Some l => negb (match l with [] => true | _ => false end) && forallb (Nat.eqb 0) l
+                    | None => false end) unconditional_handlers.
 Definition issued_ok : bool :=
   forallb (fun h => existsb (String.eqb h) expunge_issued_checked) ["handleFetch"; "handleStore"; "handleSearch"].
